@@ -557,7 +557,9 @@ def auto_rows(source):
     if result is None:
         delimited_format = data.DataFormat(data.FORMAT_DELIMITED)
         # TODO: Use chardet to figure out an encoding.
-        delimited_format.set_property(data.KEY_ENCODING, "utf-8")
+        # NOTE: Use "utf-8-sig" to skip the byte order mark applications like Excel write at the beginning of
+        #  UTF-8 encoded CSV files.
+        delimited_format.set_property(data.KEY_ENCODING, "utf-8-sig")
         # TODO: Determine delimiter by counting common delimiters
         #  with the first 4096 bytes and choosing the maximum one.
         delimited_format.set_property(data.KEY_ITEM_DELIMITER, ",")
